@@ -107,7 +107,7 @@ func main() {
 	outPath := flag.String("o", "", "write the JSON summary here")
 	flag.Parse()
 	frags := []string{"<p>a", "<b>b</i>", "<br>", "<img src=x alt='y z'>", "text &amp; more", "<!--c-->", "<table><tr><td>1<td>2</table>", "<svg xmlns='http://www.w3.org/2000/svg' xmlns:xlink='u' xlink:href='#a'><circle r=1 /></svg>",
-		"<ul><li>1<li>2</ul>", "</div>", "<div class=k id=i>", "<title>t</title>", "<script>if (a<b) {}</script>", "<math><mi>x</mi></math>", "<select><option>o", "<a href=u>l<a href=v>m", "<textarea>\n x</textarea>", "<body bgcolor=red>", "<html lang=en>", "<head><meta charset=utf-8>", "<frameset>", "<template><p>t</template>", "<ruby>r<rt>t", "<!doctype html>", "<p xml:lang=de xmlns=foo>q"}
+		"<ul><li>1<li>2</ul>", "</div>", "<div class=k id=i>", "<title>t</title>", "<script>if (a<b) {}</script>", "<math><mi>x</mi></math>", "<select><option>o", "<a href=u>l<a href=v>m", "<textarea>\n x</textarea>", "<body bgcolor=red>", "<html lang=en>", "<head><meta charset=utf-8>", "<frameset>", "<template><p>t</template>", "<ruby>r<rt>t", "<!doctype html>", "<p xml:lang=de xmlns=foo>q", "<!---->x<!-->"}
 	doctypes := []string{"<!DOCTYPE html>", "<!doctype html>\n", "<!DOCTYPE html PUBLIC \"-//W3C//DTD HTML 4.01//EN\">"}
 	var fails []failure
 	var samples []string
